@@ -3,6 +3,7 @@
 From NG Require Import Common.Tactics Codec.Bigint Codec.Wire Codec.WireProofs Codec.TxCodec Codec.TxCodecProofs Codec.ItemCodec Codec.ItemCodecProofs.
 From NG Require Import Codec.MptCodec Codec.MptCodecProofs Codec.MptCodecTrie Codec.StateCodec Codec.StateCodecProofs Codec.ExecCodec Codec.ExecCodecProofs Codec.NetCodec Codec.NetCodecProofs Codec.ZeroExamples.
 From NG Require Import Auth.Permission Auth.PermStore Codec.ManifestItem Codec.ManifestItemProofs.
+From NG Require Import Codec.ConsensusCodec Codec.ConsensusCodecProofs.
 Open Scope Z_scope.
 
 (* One theorem per type: the conjunction of its family (decode_encode, decode_wf, decode_canonical, decode_total,
@@ -362,6 +363,56 @@ Theorem C17_manifest_item_codec :
    (forall k s s', s <> s' -> group_to_item (MGroup k s) <> group_to_item (MGroup k s'))).
 Proof. exact (conj manifest_item_roundtrip (conj manifest_item_injective manifest_stored_form_distinguishes)). Qed.
 Print Assumptions C17_manifest_item_codec.
+
+(* ---------- consensus messages: the wire form depends on the network configuration (StateRootInHeader) ---------- *)
+(* [sr] is a parameter of every writer and reader and is handed down to the nested decoders:
+   message -> prepare request; message -> recovery message -> the embedded PrepareRequest message -> prepare request *)
+Theorem C17_consensus_prepare_request_codec :
+  forall sr, codec_ok (preq_wf sr) (write_preq sr) (read_preq sr).
+Proof. exact preq_decode_encode. Qed.
+Print Assumptions C17_consensus_prepare_request_codec.
+
+Theorem C17_consensus_compact_codecs :
+  codec_ok cvc_wf write_cvc read_cvc /\ codec_ok pc_wf write_pc read_pc /\ codec_ok cc_wf write_cc read_cc.
+Proof. exact (conj cvc_decode_encode (conj pc_decode_encode cc_decode_encode)). Qed.
+Print Assumptions C17_consensus_compact_codecs.
+
+(* the PrepareRequest nested in a recovery message reads back under the setting of the enclosing message *)
+Theorem C17_consensus_recovery_codec :
+  (forall sr, codec_ok (emb_wf sr) (write_emb sr) (read_emb sr)) /\
+  (forall sr, codec_ok (recovery_wf sr) (write_recovery sr) (read_recovery sr)).
+Proof. exact (conj emb_decode_encode recovery_decode_encode). Qed.
+Print Assumptions C17_consensus_recovery_codec.
+
+(* every message type, both configuration values *)
+Theorem C17_consensus_message_codec :
+  (forall m rest, cmessage_wf true m -> read_cmessage true (write_cmessage true m ++ rest) = Some (m, rest)) /\
+  (forall m rest, cmessage_wf false m -> read_cmessage false (write_cmessage false m ++ rest) = Some (m, rest)).
+Proof. exact (conj (cmessage_roundtrip_both true) (cmessage_roundtrip_both false)). Qed.
+Print Assumptions C17_consensus_message_codec.
+
+(* a recovery decoder that creates the embedded message with the DEFAULT setting (new(message)) is not a decoder of what
+   the node encodes: false with StateRootInHeader (and indistinguishable without it) *)
+Theorem C17_consensus_default_nested_refuted :
+  ~ (forall sr, codec_ok (cmessage_wf sr) (write_cmessage sr) (read_cmessage_default_nested sr)).
+Proof. exact default_nested_refuted. Qed.
+Print Assumptions C17_consensus_default_nested_refuted.
+
+(* non-vacuity: a recovery message with the PrepareRequest, two preparations and a commit. With a non-zero state root the
+   default-nested decoder refuses what was just encoded; with the zero root it accepts ANOTHER message (no preparations,
+   no commits), silently *)
+Example C17_consensus_example :
+  cmessage_wf true (ex_recovery (ex_hash32 3))
+  /\ read_cmessage true (write_cmessage true (ex_recovery (ex_hash32 3))) = Some (ex_recovery (ex_hash32 3), [])
+  /\ read_cmessage_default_nested true (write_cmessage true (ex_recovery (ex_hash32 3))) = None
+  /\ (forall bs, read_cmessage_default_nested false bs = read_cmessage false bs)
+  /\ (exists rest, read_cmessage_default_nested true (write_cmessage true (ex_recovery zero32))
+        = Some (CMessage 100 3 0 (BRecovery (Recovery [] (Some (Emb 100 1 0 (ex_preq zero32))) None [] [])), rest)
+        /\ length rest = 301%nat).
+Proof.
+  pose proof default_nested_examples as (A & B & _ & D).
+  exact (conj (ex_recovery_wf _ (proj1 (ex_hash32_wf 3))) (conj A (conj B (conj default_nested_same_without_sr D)))).
+Qed.
 
 (* ---------- non-vacuity ---------- *)
 (* non-vacuity: concrete boundary values, a non-minimal form that is read but never written *)
